@@ -348,7 +348,9 @@ def validate(module, traces, label, chunk):
 def classify_crdt(chk, failing, traces_by_id, verdicts, meta):
     """R4: which registered deviations (smallest subset) make Crdt.tla reproduce the observed objects
     up to the failing step?  Returns {tid: [keys]} ; [] = unexplained."""
-    known = known_open_devs()
+    # all deviations that have a finding key, whether or not the entry is (still) open: the key names
+    # what fails; common.Check decides KNOWN-FINDING (open entry) vs VIOLATION (no / fixed entry)
+    known = sorted(KEY)
     subsets = [list(c) for n in range(1, len(known) + 1) for c in itertools.combinations(known, n)]
     out = {tid: [] for tid in failing}
     if not subsets:
